@@ -7,12 +7,27 @@ import contracts.guesser_session as gs
 M = gc.MOD + ':PcfgGrammar.'
 CS = gs.CS + ':'
 
+THREAD_READS = [('lib_guesser/status_report.py', 'StatusReport.print_status'), ('lib_guesser/status_report.py', 'StatusReport.print_help'),
+                ('lib_guesser/status_report.py', 'StatusReport._print_guess'), ('lib_guesser/status_report.py', 'StatusReport._print_time'),
+                ('lib_guesser/status_report.py', 'StatusReport._calc_running_time'), ('lib_guesser/pcfg_grammar.py', 'PcfgGrammar.get_status')]
+
+
+def thread_frame(repo):
+    """what the keyboard thread runs on a status/help request only reads the state it shares with the generation loop"""
+    from pyvc import effects
+    recs = effects.readonly_frame(repo, THREAD_READS, tag='thread.readonly')
+    for r in recs:
+        r['name'] = 'C12.' + r['name']
+    return recs
+
+
 PROP = Prop(
     'C12', 'The guess stream does not depend on thread timing or on standard input',
     functions=[CS + 'keypress', CS + 'CrackingSession.run', CS + 'CrackingSession._save_session',
                M + 'omen_generate_guesses', M + '_recursive_guesses', M + 'create_guesses'],
     lemmas=lambda: ge.catvals_split.lemmas() + gs.flat_ext.lemmas(),
     setup=gs.install,
+    effects=thread_frame,
     level='other',
     replay=script_replay('replay/cli.py', default_fn='C12'),
     bounded=[Bounded('C12.bounded.stdin', 'replay/cli.py', args=['--fn', 'C12'],
@@ -24,7 +39,8 @@ PROP = Prop(
         'This over-approximates every interleaving; it is justified by the guarantee proved of keypress (its only write is '
         "should_exit = True after reading 'q') -- real threads are not executed",
         "input() either returns a line or raises EOFError/ValueError/OSError; print to stderr may raise (caught by keypress's bare except)",
-        'status printing (StatusReport.print_status/print_help) writes to stderr only: its stdout frame is an obligation of C09',
+        'status printing (StatusReport.print_status/print_help) writes to stderr only: its stdout frame is an obligation of C09; that it (and get_status) only '
+        'reads the pre-terminal it shares with the generation loop is the syntactic frame obligation C12.thread.readonly.frame.* (local aliases tracked flow-insensitively)',
     ],
     explanation='Deductive: keypress never lets an exception escape, writes nothing but should_exit, and sets it only after reading q; '
                 'CrackingSession.run: without a quit request the stream is complete (or cut exactly by the limit) whatever the reads of the flag '
